@@ -1,6 +1,7 @@
 (** C08 — across operations: inputs locked by lock_outputs are not selected again. *)
 From V.Lib Require Import Base.
-From V.C08 Require Import Sql Model Spec ProofsSql ProofsSel ProofsProp ProofsGreedy.
+From V.C08 Require Import Sql Model Spec ProofsSql ProofsSel ProofsProp ProofsGreedy ProofsAnchor.
+From Coq Require Import ZifyBool.
 Local Open Scope Z_scope.
 
 Theorem locked_inputs_not_reselected tip owner expiry refs db db' e acct p anchor tv pol exclude lp r :
@@ -19,25 +20,26 @@ Proof.
   intros o Eo Hino. rewrite H2 in Eo. inversion Eo; subst. exact (Ho Hino).
 Qed.
 
-(** The same for whole proposals: a later proposal (any request, any change strategy) made while the
-    locks are in force and not naming the owner shares no input with the locked ones. *)
-Theorem locked_proposal_not_reused change fuel tip owner expiry refs db db' e tip' acct pay oo permitted pol lp lock steps s x :
+(** The same for whole proposals: a later proposal (any request, any change strategy, ordinary or
+    canonical attempt) made while the locks are in force and not naming the owner shares no input
+    with the locked ones. *)
+Theorem locked_proposal_not_reused change fuel tip owner expiry refs db db' e tip' acct pay sp oo permitted pol lp lock canon steps s x :
   NoDup (rrefs db) -> 1 <= p_trusted pol -> p_trusted pol <= p_untrusted pol ->
+  (forall ci, canon = Some ci -> 0 < c_interval ci) ->
+  (forall ci sa, canon = Some ci -> c_sel_anchor ci = Some sa -> sa <= c_boundary ci) ->
   lock_outputs tip owner expiry refs db = Some db' ->
   e_target e <= expiry -> ~ In owner (overridable (LFPolicy lp)) ->
-  propose_transfer change fuel db' e tip' acct pay oo permitted pol lp lock = Ok steps ->
+  propose_transfer change fuel db' e tip' acct pay sp oo permitted pol lp lock canon = Ok steps ->
   In s steps -> In x (s_inputs s) -> ~ In x refs.
 Proof.
-  intros Hn Ht Hu HL Hx Ho HP Hs Hxin Hr.
+  intros Hn Ht Hu Hci Hsa HL Hx Ho HP Hs Hxin Hr.
   destruct (lock_outputs_holds _ _ _ _ _ _ Hn HL) as [Hrefs Hheld].
   assert (Hn' : NoDup (rrefs db')) by (rewrite Hrefs; exact Hn).
-  destruct (propose_transfer_sound _ _ _ _ _ _ _ _ _ _ _ _ _ Hn' Ht Hu HP) as [_ Hok].
-  destruct (Hok s Hs) as [inputs [Hi [_ [_ [_ [[G _] _]]]]]].
+  destruct (proposal_inputs_at_step_anchor _ _ _ _ _ _ _ _ _ _ _ _ _ _ _ Hn' Ht Hu Hci Hsa HP) as [_ Hok].
+  destruct (Hok s Hs) as [a [inputs [_ [Hi [_ [_ [_ [_ [_ Hrows]]]]]]]]].
   rewrite Hi in Hxin. apply in_rrefs in Hxin. destruct Hxin as [r [Hrin ->]].
-  destruct (G r Hrin) as [Hdb Hb]. unfold okrowb in Hb.
-  destruct (e_anchor e); [|discriminate]. apply andb_true_iff in Hb. destruct Hb as [_ Hb].
+  destruct (Hrows r Hrin) as [Hdb [_ [_ [_ [_ [_ Hb]]]]]].
   destruct (Hheld _ r Hr Hdb (proj2 (same_ref_eq _ r) eq_refl)) as [H1 H2].
-  unfold spendable in Hb. rewrite !andb_true_iff in Hb. destruct Hb as [_ Hb]. cbn [sc_owners sc_target] in Hb.
   unfold not_locked_by_other in Hb. rewrite H1, H2 in Hb.
   apply orb_true_iff in Hb. destruct Hb as [Hb|Hb]; [lia|].
   apply existsb_exists in Hb. destruct Hb as [y [Hy He]]. apply Ho. replace owner with y by lia. exact Hy.
